@@ -156,7 +156,7 @@ class ResolveAnnotatedValueS:
     raises_only = ()
 
 
-@contract("core.register:Register.resolve_size", props=["C06", "C14"])
+@contract("core.register:Register.resolve_size", props=["C06", "C14", "C16"])
 class ResolveSize:
     def requires(self, context):
         return wf_reg(self) and (context is None or isinstance(context, dict))
@@ -176,7 +176,7 @@ class ResolveSize:
     raises_only = ("JaqalError",)
 
 
-@contract("core.register:Register.resolve_qubit", props=["C06", "C14"])
+@contract("core.register:Register.resolve_qubit", props=["C06", "C14", "C16"])
 class ResolveQubit:
     def requires(self, idx, context):
         return wf_reg(self) and is_int(idx) and (context is None or isinstance(context, dict))
@@ -224,7 +224,7 @@ def size_known(r) -> bool:
     return not size_bad(r) and (is_int(size_val(r)) or (isinstance(size_val(r), Constant) and is_int(size_val(r)._value)))
 
 
-@contract("core.register:NamedQubit.resolve_qubit", props=["C06", "C14"])
+@contract("core.register:NamedQubit.resolve_qubit", props=["C06", "C14", "C16"])
 class QubitResolve:
     def requires(self, context):
         return wf_qubit(self) and (context is None or isinstance(context, dict))
@@ -250,7 +250,7 @@ class QubitResolve:
         return is_intconst(alias_index) and ival(alias_index) == ival(self._alias_index) and same(alias_from, self._alias_from)
 
 
-@contract("core.register:NamedQubit.__init__", props=["C14"])
+@contract("core.register:NamedQubit.__init__", props=["C14", "C16"])
 class QubitInit:
     """C14, first clause: a qubit reference with a literal index is only ever constructed in range."""
 
@@ -278,7 +278,7 @@ class QubitInit:
         return is_float(alias_index)
 
 
-@contract("core.register:Register.__getitem__", props=["C06", "C14"])
+@contract("core.register:Register.__getitem__", props=["C06", "C14", "C16"])
 class RegisterGetItem:
     def requires(self, key):
         return wf_reg(self) and is_int(key)
